@@ -163,11 +163,13 @@ func modelsC05(tier string) ([]*PktModel, []int) {
 	}
 	depth := []int{8, 7, 7}
 	if tier == "thorough" {
-		models = []*PktModel{
-			mt3("mt3-small", props, MtScenario{MaxUserTx: 5, Supply: 3, Amounts: []uint64{1, 2, 3, 4}, Receivers: []int{1, 2}, BadReceiver: true, Relays: true}, []string{A, B, C}),
-			mt3("mt3-max-supply", props, MtScenario{MaxUserTx: 4, Supply: max, Amounts: []uint64{1, 2, 1 << 63, max - 1, max}, Receivers: []int{1}, BadReceiver: true}, []string{A, B, C}),
-		}
-		depth = []int{12, 11}
+		// the quick scenarios explored deeper, then two scenarios with a wider alphabet (second receiver, relay routes,
+		// more amounts) whose branching factor of 20-40 bounds them to a few steps
+		models = append(models,
+			mt3("mt3-wide", props, MtScenario{MaxUserTx: 4, Supply: 3, Amounts: []uint64{1, 2, 3, 4}, Receivers: []int{1, 2}, BadReceiver: true, Relays: true}, []string{A, B, C}),
+			mt3("mt3-max-supply-wide", props, MtScenario{MaxUserTx: 4, Supply: max, Amounts: []uint64{1, 2, 1 << 63, max - 1, max}, Receivers: []int{1}, BadReceiver: true}, []string{A, B, C}),
+		)
+		depth = []int{12, 10, 12, 4, 4}
 	}
 	return models, depth
 }
@@ -175,7 +177,7 @@ func modelsC05(tier string) ([]*PktModel, []int) {
 func CheckC05(tier string) int {
 	models, depth := modelsC05(tier)
 
-	return RunPkt("C05", tier, models, depth, tierBudget(tier, 100*time.Second, 15*time.Minute), append([]string{
+	return RunPkt("C05", tier, models, depth, tierBudget(tier, 100*time.Second, 25*time.Minute), append([]string{
 		"all sums in math/big; class identities and parent links are learnt from history (which escrow a delivery drew on), not from class paths",
 		"invariants in every state: user-held units of an identity over all chains + units in flight = minted natively; module (escrow) balance of a class on a chain = everything that exists of its voucher classes one hop further + units in flight on those edges; every stored MT supply figure = sum of its balances",
 		"the MT module generates denom and MT ids itself (sha256 hex of a counter), so path-shaped native class names are not expressible through its messages and are not in the alphabet",
